@@ -83,10 +83,10 @@ def covering(ctx):
                 toks, nums, ws = rf.instr_tokens(rng, kw, ['C1', 'O1', 'N1', 'C2'], arity=n, nwords=w)
                 if kw == 'AFIX':
                     toks = ['AFIX', '0'] if n == 1 else toks[:1] + ['43', '0.98', '11.0', '-1.2'][:n]
-                line = ' '.join(toks)
-                for pos in (0, 2, 4):
+                for pos, lower in ((0, False), (2, False), (4, False), (2, True)):
                     if kw == 'HKLF' and pos != 4:
                         continue
+                    line = ' '.join([toks[0].lower() if lower else toks[0]] + toks[1:])
                     body = ATOMS[:pos] + [line] + ATOMS[pos:]
                     tail = TAIL if kw != 'HKLF' else ['END']
                     lines = HEAD + body + tail
